@@ -30,7 +30,9 @@ PROP = dict(
     ],
     rule=("real Interpreter: predicate context (init_predicate) for script/create/upgrade/upload/blob transactions with 1-5 inputs of all 7 variants (>= 1 predicate), 0-4 outputs of all 5 variants with "
           "Output::Contract indices pointing at inputs, 1-3 witnesses, storage slots, proof sets, all policy masks incl. valid / invalid Owner policies, with and without cached metadata, chain ids, "
-          "gas prices, base assets, max_inputs in {8,16,255}; script context (init_script) for valid scripts (signed coins, messages, contract inputs+outputs, change/variable/coin outputs). EVERY GTF "
+          "gas prices, base assets, max_inputs in {8,16,255}; script context (init_script) for valid scripts (signed coins, messages, contract inputs+outputs, change/variable/coin outputs); a REUSED interpreter initialised in turn with a "
+          "single-owner transaction whose contract output comes first, a transaction with two different owners and a coin output before the contract output, and a single-owner transaction without "
+          "contracts (owner pointer, Output::Contract map and cached offsets of the earlier transaction must not leak into GM GetOwner / GTF InputContractOutputIndex / pointers). EVERY GTF "
           "selector of GTFArgs (82, from args.rs) + 5 invalid codes x $rB in {0..n, n+1, 2^16, 2^32-1, 2^32, 2^64-1}, all 8 GM selectors + 3 invalid, as single instructions. The Gallina model must "
           "reproduce the initial memory byte for byte (id computed with the C03 model + SHA-256) and every result; the decision table is executed on every result with pointers dereferenced in the "
           "REAL memory dump. Oracle in the harness: reference written from the selector descriptions on the typed transaction (value / bytes at pointer in real VM memory / panic reason). "
